@@ -32,6 +32,12 @@ type c13TASpec struct {
 	Seed   int64  `json:"seed"`
 	Mapped string `json:"mapped"` // "" array map
 	Hook   string `json:"hook"`   // "" | mix  (misbehaving stage)
+	// fault injection around Pipestance.PostProcess:
+	//   "fsize": RLIMIT_FSIZE = FaultArg bytes (SIGXFSZ ignored) while post-processing runs, then a second pass;
+	//   "kill":  the child kills itself (SIGKILL) once FaultArg entries exist under outs/, a second
+	//            child re-attaches to the pipestance directory (mrp restart) and post-processes again.
+	Fault    string `json:"fault,omitempty"`
+	FaultArg int    `json:"fault_arg,omitempty"`
 }
 
 type c13TARes struct {
@@ -51,6 +57,14 @@ type c13TARes struct {
 	Leafs    int               `json:"leafs"`
 	Hooked   map[string]string `json:"hooked,omitempty"`
 	ParseErr string            `json:"parse_err,omitempty"`
+	// fault streams
+	Fault       string   `json:"fault,omitempty"`
+	FaultArg    int      `json:"fault_arg,omitempty"`
+	FaultRecord string   `json:"fault_record,omitempty"` // state of _outs right after the fault: old | new
+	FaultOuts   string   `json:"fault_outs,omitempty"`   // raw _outs right after the fault (truncated to 400 bytes)
+	FaultFails  []string `json:"fault_fails,omitempty"`  // violated assertions on the state right after the fault
+	FaultPoint  string   `json:"fault_point,omitempty"`  // kill: what existed when the child died; crashsim: the simulated point
+	Before0     c13Tree  `json:"before0,omitempty"`      // crashsim: the tree before the simulated partial post-process
 }
 
 func init() { register("C13W", c13Worker) }
@@ -70,9 +84,16 @@ func c13Worker(c *Ctx) {
 	first := 0
 	fmt.Sscan(os.Getenv("C13_FIRST"), &first)
 	outDir := os.Getenv("C13_OUT")
+	if pp := os.Getenv("C13_RESUME"); pp != "" {
+		// second incarnation after a killed post-process: only spec `first`
+		res := c13Resume(c, specs[first], pp)
+		rb, _ := json.Marshal(res)
+		os.WriteFile(filepath.Join(outDir, fmt.Sprintf("%d.json", first)), rb, 0o644)
+		return
+	}
 	for i := first; i < len(specs); i++ {
 		os.WriteFile(filepath.Join(outDir, fmt.Sprintf("%d.begin", i)), nil, 0o644)
-		res := c13RunOne(c, specs[i])
+		res := c13RunOne(c, specs[i], filepath.Join(outDir, fmt.Sprintf("%d.prepost.json", i)))
 		rb, _ := json.Marshal(res)
 		os.WriteFile(filepath.Join(outDir, fmt.Sprintf("%d.json", i)), rb, 0o644)
 		if res.Final == "hang" {
@@ -90,8 +111,8 @@ func c13SkipMeta(rel string, info os.FileInfo) bool {
 	return !info.IsDir() && info.Mode()&os.ModeSymlink == 0 && strings.HasPrefix(base, "_")
 }
 
-func c13RunOne(c *Ctx, spec *c13TASpec) *c13TARes {
-	res := &c13TARes{Name: spec.Name}
+func c13RunOne(c *Ctx, spec *c13TASpec, prepostFile string) *c13TARes {
+	res := &c13TARes{Name: spec.Name, Fault: spec.Fault, FaultArg: spec.FaultArg}
 	rng := rand.New(rand.NewSource(spec.Seed))
 	opts := TAOpts{StepBias: 0.4, StartSeparate: 0.3}
 	var run *TARun
@@ -220,28 +241,75 @@ func c13RunOne(c *Ctx, spec *c13TASpec) *c13TARes {
 	cs := &c13Contents{}
 	mon := newC13Mon(run.PsDir)
 	var preJ *c13J
+	topOuts := path.Join(run.PsDir, run.Ast.Call.Id, "fork0", "_outs")
 	done := make(chan struct{})
 	go func() {
 		defer close(done)
+		var restore func()
 		c13Drive(run, func() {
 			// the pipestance is complete; PostProcess has not run yet
 			run.ps.VerifStorageBarrier()
-			b, _ := os.ReadFile(path.Join(run.PsDir, run.Ast.Call.Id, "fork0", "_outs"))
+			b, _ := os.ReadFile(topOuts)
 			res.PreOuts = string(compactJSON(b))
 			res.Before = c13Snapshot([]string{run.PsDir, ext}, cs, c13SkipMeta)
 			if j, err := c13ParseJSON(b); err == nil {
 				preJ = j
-				c13ForEachRecord(spec.Mapped, j, func(_ string, rec *c13J) {
-					for _, p := range res.Params {
-						c13Leaves(p, rec.get(p.Id), func(_ c13Member, v *c13J) { mon.record(v) })
+				c13RecordLeaves(spec.Mapped, j, res.Params, mon)
+			}
+			switch spec.Fault {
+			case "crashsim":
+				// deterministic crash point: an earlier post-process completed the move of the first
+				// FaultArg/3 movable leaves (in the real visiting order) and FaultArg%3 of the three
+				// steps (mkdir, rename, symlink) of the next one, then died; `_outs` is still the old
+				// record.  The PostProcess that follows is the restarted pass.
+				if preJ != nil {
+					var movable []c13SrcDest
+					for _, sd := range c13OrderedLeaves(spec.Mapped, res.Params, preJ, run.PsDir) {
+						if mon.kind[sd.src] == "reg" && mon.occ[sd.src] == 1 && strings.HasPrefix(sd.src, run.PsDir+"/") {
+							movable = append(movable, sd)
+						}
 					}
-				})
+					res.Before0 = res.Before
+					full, part := spec.FaultArg/3, spec.FaultArg%3
+					if full >= len(movable) && !(full == len(movable) && part == 0) {
+						res.FaultPoint = "beyond"
+					} else {
+						for j := 0; j < full; j++ {
+							c13SimulateMove(movable[j], 3)
+						}
+						if part > 0 {
+							c13SimulateMove(movable[full], part)
+						}
+						res.FaultPoint = fmt.Sprintf("leaf %d of %d, step %d", full, len(movable), part)
+						res.Before = c13Snapshot([]string{run.PsDir, ext}, cs, c13SkipMeta)
+					}
+				}
+			case "fsize":
+				restore = c13LimitFileSize(spec.FaultArg)
+			case "kill":
+				res.Contents = cs.ids
+				c13WritePrepost(prepostFile, res, mon)
+				c13ArmKiller(filepath.Join(run.PsDir, "outs"), spec.FaultArg, prepostFile)
+			}
+		}, func() {
+			// PostProcess has returned; the pipestance is still locked
+			switch spec.Fault {
+			case "fsize":
+				restore()
+				if preJ != nil {
+					c13CheckFaultState(res, spec, mon, preJ, run.PsDir, topOuts)
+				}
+				// mrp is restarted: post-processing runs once more, unhindered
+				run.ps.PostProcess()
+			case "kill":
+				// post-processing finished before the kill condition was met: die now (lock left behind)
+				c13KillSelf(prepostFile, "after-postprocess")
 			}
 		})
 	}()
 	select {
 	case <-done:
-	case <-time.After(40 * time.Second):
+	case <-time.After(150 * time.Second):
 		buf := make([]byte, 1<<14)
 		buf = buf[:runtime.Stack(buf, true)]
 		res.Final = "hang"
@@ -257,21 +325,26 @@ func c13RunOne(c *Ctx, spec *c13TASpec) *c13TARes {
 		return res
 	}
 	run.ps.VerifStorageBarrier()
-	b, _ := os.ReadFile(path.Join(run.PsDir, run.Ast.Call.Id, "fork0", "_outs"))
-	res.PostOuts = string(compactJSON(b))
-	res.After = c13Snapshot([]string{run.PsDir, ext}, cs, c13SkipMeta)
-	res.Contents = cs.ids
-	postJ, err := c13ParseJSON(b)
-	if err != nil {
-		res.ParseErr = err.Error()
-		return res
-	}
-	// property monitor on the real result (needs the real file system: done here)
-	outsRoot := filepath.Join(run.PsDir, "outs")
+	c13Finish(res, spec, mon, preJ, cs, run.PsDir, ext, topOuts)
+	return res
+}
+
+// c13RecordLeaves notes what every file leaf of the top-level record holds before post-processing.
+func c13RecordLeaves(mapped string, j *c13J, params []c13Member, mon *c13Mon) {
+	c13ForEachRecord(mapped, j, func(_ string, rec *c13J) {
+		for _, p := range params {
+			c13Leaves(p, rec.get(p.Id), func(_ c13Member, v *c13J) { mon.record(v) })
+		}
+	})
+}
+
+// c13WalkRecords runs the property monitor over all per-fork records.
+func c13WalkRecords(mapped string, params []c13Member, mon *c13Mon, preJ, postJ *c13J, psDir string) {
+	outsRoot := filepath.Join(psDir, "outs")
 	postRecs := map[string]*c13J{}
-	c13ForEachRecord(spec.Mapped, postJ, func(k string, rec *c13J) { postRecs[k] = rec })
+	c13ForEachRecord(mapped, postJ, func(k string, rec *c13J) { postRecs[k] = rec })
 	nrec := 0
-	c13ForEachRecord(spec.Mapped, preJ, func(k string, rec *c13J) {
+	c13ForEachRecord(mapped, preJ, func(k string, rec *c13J) {
 		nrec++
 		post := postRecs[k]
 		if post == nil {
@@ -279,20 +352,34 @@ func c13RunOne(c *Ctx, spec *c13TASpec) *c13TARes {
 			return
 		}
 		dir := outsRoot
-		if spec.Mapped != "" {
+		if mapped != "" {
 			dir = filepath.Join(outsRoot, k)
 		}
-		for _, p := range res.Params {
+		for _, p := range params {
 			mon.walk(k+"/"+p.Id, p, rec.get(p.Id), post.get(p.Id), dir)
 		}
 	})
 	if len(postRecs) != nrec {
 		mon.failf("number of records changed: %d -> %d", nrec, len(postRecs))
 	}
+}
+
+// c13Finish: the final record and tree, and the property monitor on them
+// (needs the real file system: done in the child).
+func c13Finish(res *c13TARes, spec *c13TASpec, mon *c13Mon, preJ *c13J, cs *c13Contents, psDir, ext, topOuts string) {
+	b, _ := os.ReadFile(topOuts)
+	res.PostOuts = string(compactJSON(b))
+	res.After = c13Snapshot([]string{psDir, ext}, cs, c13SkipMeta)
+	res.Contents = cs.ids
+	postJ, err := c13ParseJSON(b)
+	if err != nil {
+		res.ParseErr = err.Error()
+		return
+	}
+	c13WalkRecords(spec.Mapped, res.Params, mon, preJ, postJ, psDir)
 	res.Fails = mon.fails
 	res.Alias = mon.alias
 	res.Leafs = mon.leafs
-	return res
 }
 
 // c13ForEachRecord: the per-fork records of a top-level `_outs`.
@@ -316,8 +403,9 @@ func c13ForEachRecord(mapped string, j *c13J, f func(key string, rec *c13J)) {
 }
 
 // c13Drive is TARun.Run without crashes, calling beforePost between the
-// moment the pipestance is found complete and PostProcess.
-func c13Drive(r *TARun, beforePost func()) {
+// moment the pipestance is found complete and PostProcess, and afterPost
+// between PostProcess and the release of the pipestance lock.
+func c13Drive(r *TARun, beforePost, afterPost func()) {
 	defer func() {
 		if e := recover(); e != nil {
 			r.Final = fmt.Sprintf("panic:%v", e)
@@ -346,6 +434,9 @@ func c13Drive(r *TARun, beforePost func()) {
 			r.log("complete", "", string(state))
 			beforePost()
 			r.ps.PostProcess()
+			if afterPost != nil {
+				afterPost()
+			}
 			r.ps.Unlock()
 			r.Final = "complete"
 			return
@@ -382,11 +473,20 @@ func c13Drive(r *TARun, beforePost func()) {
 
 // ---- parent side ----
 
+var (
+	c13CallMu sync.Mutex
+	c13Calls  int
+)
+
 func c13RunChildren(c *Ctx, specs []*c13TASpec, parallel int) []*c13TARes {
 	results := make([]*c13TARes, len(specs))
 	if len(specs) == 0 {
 		return results
 	}
+	c13CallMu.Lock()
+	c13Calls++
+	callNo := c13Calls
+	c13CallMu.Unlock()
 	// contiguous batches, one child each
 	if parallel > len(specs) {
 		parallel = len(specs)
@@ -404,7 +504,10 @@ func c13RunChildren(c *Ctx, specs []*c13TASpec, parallel int) []*c13TARes {
 		wg.Add(1)
 		go func(w, lo, hi int) {
 			defer wg.Done()
-			dir := filepath.Join(c13Scratch(c), fmt.Sprintf("w%d", w))
+			// a fresh directory per call and worker: a stale <i>.json of an earlier call must
+			// never be taken for the result of a child that died before writing its own
+			dir := filepath.Join(c13Scratch(c), fmt.Sprintf("call%d-w%d", callNo, w))
+			os.RemoveAll(dir)
 			os.MkdirAll(dir, 0o755)
 			sb, _ := json.Marshal(specs[lo:hi])
 			specFile := filepath.Join(dir, "specs.json")
@@ -422,11 +525,35 @@ func c13RunChildren(c *Ctx, specs []*c13TASpec, parallel int) []*c13TARes {
 						break
 					}
 					var res c13TARes
-					if json.Unmarshal(b, &res) != nil {
+					if json.Unmarshal(b, &res) != nil || res.Name != specs[lo+i].Name {
 						break
 					}
 					results[lo+i] = &res
 					next = i + 1
+				}
+				if next < hi-lo && specs[lo+next].Fault == "kill" {
+					pp := filepath.Join(dir, fmt.Sprintf("%d.prepost.json", next))
+					if _, err := os.Stat(pp); err == nil {
+						// the child killed itself during post-processing: restart on the same directory
+						cmd := exec.Command(os.Args[0], "-seed", fmt.Sprint(c.Seed), "-out", filepath.Join(dir, "worker.json"), "C13W")
+						cmd.Env = append(os.Environ(), "C13_SPECS="+specFile, "C13_OUT="+dir, fmt.Sprintf("C13_FIRST=%d", next),
+							"C13_RESUME="+pp, "GOMAXPROCS=2", "TMPDIR="+dir)
+						out2, _ := cmd.CombinedOutput()
+						var res c13TARes
+						if b, err := os.ReadFile(filepath.Join(dir, fmt.Sprintf("%d.json", next))); err == nil &&
+							json.Unmarshal(b, &res) == nil && res.Name == specs[lo+next].Name {
+							results[lo+next] = &res
+						} else {
+							msg := string(out2)
+							if len(msg) > 1500 {
+								msg = msg[len(msg)-1500:]
+							}
+							results[lo+next] = &c13TARes{Name: specs[lo+next].Name, Final: "process-exit", Fault: "kill",
+								ErrMsg: "the restarted incarnation died: " + msg}
+						}
+						first = next + 1
+						continue
+					}
 				}
 				if next < hi-lo {
 					if _, err := os.Stat(filepath.Join(dir, fmt.Sprintf("%d.begin", next))); err == nil {
@@ -496,18 +623,92 @@ func c13TierA(c *Ctx, r *Result) {
 				spec.Name += "-dupreturn"
 			}
 		}
+		if !strings.HasSuffix(spec.Name, "-gen") {
+			switch i % 8 {
+			case 1, 6:
+				spec.Fault = "fsize"
+				spec.FaultArg = []int{0, 1, 7, 40, 64, 150, 400, 100000}[rng.Intn(8)]
+				spec.Name += fmt.Sprintf("-fsize%d", spec.FaultArg)
+			case 3:
+				spec.Fault = "kill"
+				spec.FaultArg = []int{0, 1, 2, 3, 5, 8, 13, 1000}[rng.Intn(8)]
+				spec.Name += fmt.Sprintf("-kill%d", spec.FaultArg)
+			}
+		}
 		specs = append(specs, spec)
+	}
+	// deterministic sweeps: every simulated crash point of a few programs, and the kill stream at
+	// every entry count of one (quick) or a few (thorough) programs
+	nsim, nkill, capSim, capKill := 3, 1, 37, 25
+	if c.Thorough {
+		nsim, nkill, capSim, capKill = 16, 5, 37, 40
+	}
+	for k := 0; k < nsim+nkill; k++ {
+		rng := rand.New(rand.NewSource(c.Rng.Int63()))
+		seed := rng.Int63()
+		sig := c13GenSmallSig(rng, 12)
+		mapped := []string{"", "", "array", "map"}[k%4]
+		src := sig.mro(mapped, k%3 == 1)
+		if k < nsim {
+			for p := 0; p <= capSim; p++ {
+				specs = append(specs, &c13TASpec{Name: fmt.Sprintf("ta-sweep%d-crashsim%d", k, p), Src: src, Seed: seed, Mapped: mapped,
+					Fault: "crashsim", FaultArg: p})
+			}
+		} else {
+			for p := 1; p <= capKill; p++ {
+				specs = append(specs, &c13TASpec{Name: fmt.Sprintf("ta-sweep%d-kill%d", k, p), Src: src, Seed: seed, Mapped: mapped,
+					Fault: "kill", FaultArg: p})
+			}
+		}
 	}
 	c13TACompare(c, r, specs, c13RunChildren(c, specs, 12), false)
 }
 
 // c13TACompare: histogram, property failures reported by the child, model comparison.
+// A spec that produced a violation is re-executed alone (the machine may be heavily loaded:
+// time-outs, kill points) and only what shows up again is reported.
 func c13TACompare(c *Ctx, r *Result, specs []*c13TASpec, results []*c13TARes, corpus bool) {
+	type pend struct {
+		spec *c13TASpec
+		vs   []Violation
+	}
+	var pending []pend
+	for i := range specs {
+		before := len(r.Violations)
+		c13CompareAll(c, r, specs[i:i+1], results[i:i+1], corpus)
+		if len(r.Violations) > before {
+			vs := append([]Violation{}, r.Violations[before:]...)
+			r.Violations = r.Violations[:before]
+			pending = append(pending, pend{specs[i], vs})
+		}
+	}
+	for _, p := range pending {
+		tmp := &Result{}
+		c13CompareAll(c, tmp, []*c13TASpec{p.spec}, c13RunChildren(c, []*c13TASpec{p.spec}, 1), true)
+		again := map[string]bool{}
+		for _, v := range tmp.Violations {
+			again[v.Key] = true
+		}
+		for _, v := range p.vs {
+			if again[v.Key] {
+				r.violate(v)
+			} else {
+				r.hist("tierA:not-reproduced-alone:" + v.Key)
+				r.note("tier A: %s (%s) was not reproduced when %s was re-executed alone; not reported", v.Key, c13Short(v.What), p.spec.Name)
+			}
+		}
+	}
+}
+
+func c13CompareAll(c *Ctx, r *Result, specs []*c13TASpec, results []*c13TARes, corpus bool) {
 	for i, res := range results {
 		spec := specs[i]
 		if res == nil {
 			r.hist("tierA:final:no-result")
 			continue
+		}
+		if os.Getenv("C13_TRACE") != "" {
+			fmt.Fprintf(os.Stderr, "tierA compare %s final=%s fault=%s/%d/%s\n", spec.Name, res.Final, spec.Fault, spec.FaultArg, res.FaultPoint)
 		}
 		r.hist("tierA:final:" + c13FinalClass(res.Final))
 		if res.Final == "compile-error" {
@@ -550,14 +751,14 @@ func c13TACompare(c *Ctx, r *Result, specs []*c13TASpec, results []*c13TARes, co
 			continue
 		}
 		if len(res.Fails) > 0 {
-			key := "C13:materialise"
+			key := c13CrashKey(res, "C13:materialise")
 			md := false
 			c13ForEachRecord(spec.Mapped, pre, func(_ string, rec *c13J) {
 				for _, p := range res.Params {
 					c13MultiDimLeaf(p.Ty, rec.get(p.Id), &md)
 				}
 			})
-			if md {
+			if md && key == "C13:materialise" {
 				key = "C13:multidim-file-array"
 			}
 			fails := make([]string, len(res.Fails))
@@ -577,8 +778,57 @@ func c13TACompare(c *Ctx, r *Result, specs []*c13TASpec, results []*c13TARes, co
 			r.violate(Violation{Kind: "property", Key: "C13:alias-record-points-at-first", What: strings.Join(al, "; "),
 				Input: input, Impl: strip(res.PostOuts)})
 		}
+		if spec.Fault != "" {
+			r.hist("tierA:fault:" + spec.Fault)
+			r.hist("tierA:fault:" + spec.Fault + ":record-" + res.FaultRecord)
+			if res.FaultPoint != "" {
+				fp := res.FaultPoint
+				if strings.HasSuffix(fp, "-entries-under-outs") {
+					fp = "some-entries-under-outs"
+				}
+				if strings.HasPrefix(fp, "leaf ") {
+					fp = "step-" + fp[len(fp)-1:]
+				}
+				r.hist("tierA:fault:" + spec.Fault + ":" + fp)
+			}
+			input["fault"] = spec.Fault
+			input["fault_arg"] = spec.FaultArg
+			input["fault_point"] = res.FaultPoint
+			if len(res.FaultFails) > 0 {
+				key := "C13:fault-state"
+				ff := make([]string, len(res.FaultFails))
+				for i, f := range res.FaultFails {
+					ff[i] = strip(f)
+					if strings.Contains(f, "_outs") {
+						key = "C13:record-torn-under-fault"
+					}
+				}
+				r.violate(Violation{Kind: "property", Key: key,
+					What:  "after a faulted post-process (" + spec.Fault + fmt.Sprint(" ", spec.FaultArg) + "): " + strings.Join(ff, "; "),
+					Input: input, Impl: strip(res.FaultOuts),
+					Expect: "_outs is the complete old record or a complete new one; every output's content intact at its source or its destination"})
+			}
+		}
+		if n := strings.Count(res.PreOuts, res.PsDir); n > 400 {
+			// the model's abstract file system is quadratic in the number of operations
+			r.hist("tierA:model-skipped-large-record")
+			continue
+		}
 		// model comparison
 		mode := map[string]string{"": "o", "array": "a", "map": "m"}[spec.Mapped]
+		altMode := ""
+		switch {
+		case spec.Fault == "fsize" && res.FaultRecord == "new":
+			mode += mode // second pass over the rewritten record
+		case spec.Fault == "fsize":
+			mode += "2" // second pass over the old record
+		case spec.Fault == "crashsim":
+			// correspondence: one pass from the simulated crash state (res.Before); convergence below
+		case spec.Fault == "kill":
+			// a prefix of the first pass, then a full pass: the tree of an uninterrupted run
+			// (or, when everything had been moved, of a second pass); the record is checked by the monitor only
+			altMode = mode + "2"
+		}
 		// content ids of the child (hash table) are already in the tree strings
 		reply := c.Drv.Ask("C13.run", mode, "g", hx(res.PsDir), hx(filepath.Join(res.PsDir, "outs")), c13EncParams(res.Params),
 			pre.encStr(), res.Before.enc(c13Ancestors(res.PsDir)))
@@ -589,23 +839,73 @@ func c13TACompare(c *Ctx, r *Result, specs []*c13TASpec, results []*c13TARes, co
 		}
 		post, _ := c13ParseJSON([]byte(res.PostOuts))
 		mj, merr := c13ParseJSON([]byte(unhx(parts[0])))
-		if merr != nil || post == nil || mj.canon() != post.canon() {
+		if spec.Fault == "kill" {
+			// record: monitor only
+		} else if merr != nil || post == nil || mj.canon() != post.canon() {
 			r.violate(Violation{Kind: "correspondence", Key: "C13:model-json-tierA", Broken: "correspondence postProcess (rewritten _outs)",
 				What: "rewritten top-level _outs differs between the real runtime and the model", Input: input,
 				Impl: strip(res.PostOuts), Model: strip(unhx(parts[0]))})
 		}
-		if d := c13TreeDiff(res.After, c13ParseTree(parts[1]), []string{res.PsDir, res.Ext}); len(d) > 0 {
+		d := c13TreeDiff(res.After, c13ParseTree(parts[1]), []string{res.PsDir, res.Ext})
+		if len(d) > 0 && altMode != "" {
+			reply2 := c.Drv.Ask("C13.run", altMode, "g", hx(res.PsDir), hx(filepath.Join(res.PsDir, "outs")), c13EncParams(res.Params),
+				pre.encStr(), res.Before.enc(c13Ancestors(res.PsDir)))
+			if p2 := strings.Split(reply2, "\t"); len(p2) == 2 {
+				if d2 := c13TreeDiff(res.After, c13ParseTree(p2[1]), []string{res.PsDir, res.Ext}); len(d2) == 0 {
+					d = nil
+					r.hist("tierA:fault:kill:tree-of-second-pass")
+				}
+			}
+		}
+		if spec.Fault == "crashsim" && res.Before0 != nil && res.FaultPoint != "beyond" {
+			// convergence: the tree must be the one an uninterrupted post-process produces
+			reply0 := c.Drv.Ask("C13.run", mode, "g", hx(res.PsDir), hx(filepath.Join(res.PsDir, "outs")), c13EncParams(res.Params),
+				pre.encStr(), res.Before0.enc(c13Ancestors(res.PsDir)))
+			if p0 := strings.Split(reply0, "\t"); len(p0) == 2 {
+				if d0 := c13TreeDiff(res.After, c13ParseTree(p0[1]), []string{res.PsDir, res.Ext}); len(d0) > 0 {
+					if len(d0) > 8 {
+						d0 = d0[:8]
+					}
+					for i := range d0 {
+						d0[i] = strip(d0[i])
+					}
+					r.violate(Violation{Kind: "property", Key: c13CrashKey(res, "C13:restart-does-not-converge"),
+						What:  "post-processing interrupted at " + res.FaultPoint + " and restarted: the pipestance tree is not the one an uninterrupted run produces",
+						Input: input, Impl: d0, Expect: "the tree the model computes for an uninterrupted post-process"})
+				}
+			}
+		}
+		if len(d) > 0 {
 			if len(d) > 8 {
 				d = d[:8]
 			}
 			for i := range d {
 				d[i] = strip(d[i])
 			}
-			r.violate(Violation{Kind: "correspondence", Key: "C13:model-tree-tierA", Broken: "correspondence postProcess (file tree)",
-				What: "pipestance tree after PostProcess differs between the real runtime and the model", Input: input, Impl: d})
+			if spec.Fault == "kill" {
+				r.violate(Violation{Kind: "property", Key: c13CrashKey(res, "C13:restart-does-not-converge"),
+					What:  "post-processing killed (" + res.FaultPoint + ") and restarted: the pipestance tree is not the one an uninterrupted run produces",
+					Input: input, Impl: d, Expect: "the tree the model computes for an uninterrupted post-process"})
+			} else {
+				r.violate(Violation{Kind: "correspondence", Key: "C13:model-tree-tierA", Broken: "correspondence postProcess (file tree)",
+					What: "pipestance tree after PostProcess differs between the real runtime and the model", Input: input, Impl: d})
+			}
 		}
 		if i%40 == 0 && !corpus {
 			r.sample(map[string]interface{}{"tierA": res.Name, "mapped": spec.Mapped, "pre_outs": strip(res.PreOuts), "post_outs": strip(res.PostOuts)})
 		}
 	}
+}
+
+// c13CrashKey: after a kill or a simulated crash, "an existing file became null" is the signature
+// of F22 (kill between the rename into outs/ and leaving the symlink behind).
+func c13CrashKey(res *c13TARes, deflt string) string {
+	if res.Fault == "kill" || res.Fault == "crashsim" {
+		for _, f := range res.Fails {
+			if strings.Contains(f, "value of an existing file became null") {
+				return "C13:crash-between-rename-and-symlink"
+			}
+		}
+	}
+	return deflt
 }
